@@ -259,3 +259,399 @@ Proof.
     change 1 with (List.length [c0]).
     rewrite tf_names_spec; [|exact Hlow|apply Huniq]. rewrite blacklist_is_gfm. reflexivity.
 Qed.
+
+Lemma tagfilter_total s : exists b, tagfilter s = Ok b.
+Proof. eexists. apply tagfilter_model. Qed.
+
+(* ---------------------------------------------------------------- tagfilter_block *)
+
+Lemma lt_ent_entity : lt_ent = lt_entity.
+Proof. reflexivity. Qed.
+
+Lemma scan_to_lt_spec : forall s run rest,
+  scan_to_lt s = (run, rest) ->
+  s = run ++ rest /\ Forall (fun b => beqb b x3c = false) run /\
+  match rest with [] => True | b :: _ => b = x3c end.
+Proof.
+  induction s as [|b s IH]; intros run rest H; cbn [scan_to_lt] in H.
+  - inversion H; subst. repeat split. constructor.
+  - destruct (beqb b x3c) eqn:Hb; cbn [negb] in H.
+    + inversion H; subst. repeat split; [constructor|]. apply beqb_eq. exact Hb.
+    + destruct (scan_to_lt s) as [r t] eqn:E. inversion H; subst.
+      destruct (IH r rest eq_refl) as [E1 [E2 E3]]. repeat split.
+      * cbn [app]. f_equal. exact E1.
+      * constructor; assumption.
+      * exact E3.
+Qed.
+
+Lemma gfm_filter_copy ws : forall run rest,
+  Forall (fun b => beqb b x3c = false) run ->
+  gfm_filter_ws ws (run ++ rest) = run ++ gfm_filter_ws ws rest.
+Proof.
+  induction run as [|b run IH]; intros rest H; [reflexivity|].
+  inversion H; subst. cbn [app gfm_filter_ws]. rewrite dis_not_lt by assumption.
+  cbn [app]. f_equal. apply IH. assumption.
+Qed.
+
+Lemma tfb_loop_spec : forall fuel s out,
+  List.length s < fuel -> tfb_loop fuel out s = Ok (out ++ gfm_filter_ws isspace s).
+Proof.
+  induction fuel as [|f IH]; intros s out Hlen; [lia|].
+  cbn [tfb_loop]. destruct s as [|b0 s0].
+  - rewrite app_nil_r. reflexivity.
+  - remember (b0 :: s0) as s eqn:Es.
+    destruct (scan_to_lt s) as [run rest] eqn:E.
+    destruct (scan_to_lt_spec s run rest E) as [E1 [E2 E3]].
+    rewrite E1. rewrite gfm_filter_copy by exact E2.
+    destruct rest as [|b rest'].
+    + cbn [gfm_filter_ws]. rewrite app_nil_r. reflexivity.
+    + subst b. rewrite tagfilter_model. cbn [bind]. rewrite IH.
+      * cbn [gfm_filter_ws]. rewrite lt_ent_entity. rewrite <- !app_assoc. reflexivity.
+      * rewrite E1, app_length in Hlen. cbn [List.length] in Hlen. lia.
+Qed.
+
+Lemma tagfilter_block_model s : tagfilter_block s = Ok (gfm_filter_ws isspace s).
+Proof. unfold tagfilter_block. rewrite tfb_loop_spec by lia. reflexivity. Qed.
+
+Lemma tagfilter_block_total s : exists o, tagfilter_block s = Ok o.
+Proof. eexists. apply tagfilter_block_model. Qed.
+
+(* ---------------------------------------------------------------- dependence on the whitespace set *)
+
+Lemma In_skipn {A} : forall n (l : list A) x, In x (skipn n l) -> In x l.
+Proof.
+  induction n as [|n IH]; intros l x H; [exact H|].
+  destruct l as [|y l]; [exact H|]. right. apply IH. exact H.
+Qed.
+
+Section TwoWs.
+  Variables ws1 ws2 : byte -> bool.
+
+  Lemma tag_end_local r : (forall b, In b r -> ws1 b = ws2 b) -> tag_end ws1 r = tag_end ws2 r.
+  Proof.
+    intro H. destruct r as [|c r]; [reflexivity|]. cbn [tag_end]. rewrite (H c (or_introl eq_refl)). reflexivity.
+  Qed.
+
+  Lemma name_then_end_local r : (forall b, In b r -> ws1 b = ws2 b) -> name_then_end ws1 r = name_then_end ws2 r.
+  Proof.
+    intro H. unfold name_then_end. induction gfm_disallowed_names as [|n l IH]; [reflexivity|].
+    cbn [existsb]. rewrite IH. f_equal. f_equal. apply tag_end_local.
+    intros b Hb. apply H. eapply In_skipn. exact Hb.
+  Qed.
+
+  Lemma disallowed_local s : (forall b, In b s -> ws1 b = ws2 b) -> disallowed_at_ws ws1 s = disallowed_at_ws ws2 s.
+  Proof.
+    intro H. destruct s as [|c [|d r]]; try reflexivity. cbn [disallowed_at_ws]. f_equal.
+    destruct (beqb d x2f); apply name_then_end_local; intros b Hb; apply H.
+    - right. right. exact Hb.
+    - right. exact Hb.
+  Qed.
+
+  Lemma gfm_filter_local : forall s, (forall b, In b s -> ws1 b = ws2 b) -> gfm_filter_ws ws1 s = gfm_filter_ws ws2 s.
+  Proof.
+    induction s as [|c r IH]; intro H; [reflexivity|].
+    cbn [gfm_filter_ws]. rewrite (disallowed_local (c :: r) H). f_equal. apply IH.
+    intros b Hb. apply H. right. exact Hb.
+  Qed.
+
+  (* a larger whitespace set only adds matches *)
+  Hypothesis sub : forall b, ws1 b = true -> ws2 b = true.
+
+  Lemma tag_end_mono r : tag_end ws1 r = true -> tag_end ws2 r = true.
+  Proof.
+    destruct r as [|c r]; [discriminate|]. cbn [tag_end]. intro H.
+    apply orb_true_iff in H. destruct H as [H|H]; [|rewrite H; apply orb_true_r].
+    apply orb_true_iff in H. destruct H as [H|H]; [rewrite (sub c H); reflexivity|].
+    rewrite H. rewrite orb_true_r. reflexivity.
+  Qed.
+
+  Lemma name_then_end_mono r : name_then_end ws1 r = true -> name_then_end ws2 r = true.
+  Proof.
+    unfold name_then_end. intro H. apply existsb_exists in H. destruct H as [n [Hin H]].
+    apply existsb_exists. exists n. split; [exact Hin|].
+    apply andb_true_iff in H. destruct H as [H1 H2]. rewrite H1. cbn [andb]. apply tag_end_mono. exact H2.
+  Qed.
+
+  Lemma disallowed_mono s : disallowed_at_ws ws1 s = true -> disallowed_at_ws ws2 s = true.
+  Proof.
+    destruct s as [|c [|d r]]; try (intro H; exact H). cbn [disallowed_at_ws]. intro H.
+    apply andb_true_iff in H. destruct H as [H1 H2]. rewrite H1. cbn [andb].
+    destruct (beqb d x2f); apply name_then_end_mono; exact H2.
+  Qed.
+End TwoWs.
+
+Definition no_vt_ff (s : bytes) : bool := forallb (fun b => negb (beqb b x0b || beqb b x0c)) s.
+
+Lemma isspace_gfm_on s : no_vt_ff s = true -> forall b, In b s -> isspace b = gfm_ws b.
+Proof.
+  unfold no_vt_ff. intros H b Hb. rewrite forallb_forall in H. specialize (H b Hb).
+  rewrite isspace_narrow, narrow_vs_gfm, H. apply andb_true_r.
+Qed.
+
+Lemma isspace_sub_gfm b : isspace b = true -> gfm_ws b = true.
+Proof. rewrite isspace_narrow, narrow_vs_gfm. intro H. apply andb_true_iff in H. tauto. Qed.
+
+Lemma disallowed_isspace_narrow s : disallowed_at_ws isspace s = disallowed_at_narrow s.
+Proof. apply disallowed_local. intros b _. apply isspace_narrow. Qed.
+
+Lemma gfm_filter_isspace_narrow s : gfm_filter_ws isspace s = gfm_filter_narrow s.
+Proof. apply gfm_filter_local. intros b _. apply isspace_narrow. Qed.
+
+(* what the code does, in spec terms *)
+Lemma tagfilter_exact s : tagfilter s = Ok (disallowed_at_narrow s).
+Proof. rewrite tagfilter_model, disallowed_isspace_narrow. reflexivity. Qed.
+
+Lemma tagfilter_block_exact s : tagfilter_block s = Ok (gfm_filter_narrow s).
+Proof. rewrite tagfilter_block_model, gfm_filter_isspace_narrow. reflexivity. Qed.
+
+(* the GFM reading (line tabulation and form feed end a tag name too) *)
+Definition tagfilter_spec_full_statement : Prop := forall s, tagfilter s = Ok (disallowed_at s).
+Definition tagfilter_block_spec_full_statement : Prop := forall s, tagfilter_block s = Ok (gfm_filter s).
+
+Definition vtff_witness : bytes := [x3c; x74; x69; x74; x6c; x65; x0c; x3e].   (* LT title FF GT *)
+
+Lemma tagfilter_spec_refuted : ~ tagfilter_spec_full_statement.
+Proof.
+  intro H. specialize (H vtff_witness). rewrite tagfilter_exact in H. vm_compute in H. discriminate.
+Qed.
+
+Lemma tagfilter_block_spec_refuted : ~ tagfilter_block_spec_full_statement.
+Proof.
+  intro H. specialize (H vtff_witness). rewrite tagfilter_block_exact in H. vm_compute in H. discriminate.
+Qed.
+
+Lemma tagfilter_spec_partial s : no_vt_ff s = true -> tagfilter s = Ok (disallowed_at s).
+Proof.
+  intro H. rewrite tagfilter_model. f_equal. apply disallowed_local. apply isspace_gfm_on. exact H.
+Qed.
+
+Lemma tagfilter_block_spec_partial s : no_vt_ff s = true -> tagfilter_block s = Ok (gfm_filter s).
+Proof.
+  intro H. rewrite tagfilter_block_model. f_equal. apply gfm_filter_local. apply isspace_gfm_on. exact H.
+Qed.
+
+(* the code never filters anything but a GFM-disallowed tag *)
+Lemma tagfilter_sound s : tagfilter s = Ok true -> disallowed_at s = true.
+Proof.
+  rewrite tagfilter_model. intro H. injection H as D.
+  exact (disallowed_mono isspace gfm_ws isspace_sub_gfm s D).
+Qed.
+
+(* ---------------------------------------------------------------- nothing else is altered *)
+
+Section Structural.
+  Variable ws : byte -> bool.
+  Hypothesis ws_amp : ws x26 = false.
+
+  Lemma concat_map_seq_shift (F : nat -> bytes) n :
+    List.concat (map F (seq 0 (S n))) = F 0 ++ List.concat (map (fun i => F (S i)) (seq 0 n)).
+  Proof. cbn [seq map List.concat]. rewrite <- seq_shift, map_map. reflexivity. Qed.
+
+  (* gfm_filter s is s with the entity substituted exactly at the positions where a disallowed tag
+     begins; every such position holds LT (disallowed_lt) *)
+  Lemma filter_only_lt_ws : forall s,
+    gfm_filter_ws ws s = subst_lt_at (fun i => disallowed_at_ws ws (skipn i s)) s.
+  Proof.
+    induction s as [|c r IH]; [reflexivity|].
+    unfold subst_lt_at. cbn [List.length]. rewrite concat_map_seq_shift.
+    cbn [gfm_filter_ws skipn firstn]. f_equal. rewrite IH. unfold subst_lt_at.
+    f_equal.
+  Qed.
+
+  Lemma subst_length_ge P : forall s, List.length s <= List.length (subst_lt_at P s).
+  Proof.
+    intro s. unfold subst_lt_at.
+    assert (G : forall k n, k + n <= List.length s ->
+              n <= List.length (List.concat (map (fun i => if P i then lt_entity else firstn 1 (skipn i s)) (seq k n)))).
+    { intros k n; revert k. induction n as [|n IH]; intros k Hk; [cbn; lia|].
+      cbn [seq map List.concat]. rewrite app_length. specialize (IH (S k)).
+      assert (1 <= List.length (if P k then lt_entity else firstn 1 (skipn k s))).
+      { destruct (P k); [cbn; lia|]. rewrite firstn_length, skipn_length. lia. }
+      lia. }
+    apply (G 0). lia.
+  Qed.
+
+  (* ---------------------------------------------------------------- no such tag survives *)
+
+  Lemma prefix_transfer : forall n r,
+    (forall y, In y n -> beqb x26 y = false) ->
+    name_prefix_ci (gfm_filter_ws ws r) n = true ->
+    name_prefix_ci r n = true /\
+    skipn (List.length n) (gfm_filter_ws ws r) = gfm_filter_ws ws (skipn (List.length n) r).
+  Proof.
+    induction n as [|y n IH]; intros r Hy H; [split; reflexivity|].
+    destruct r as [|c r]; [cbn in H; discriminate|].
+    cbn [gfm_filter_ws] in *. destruct (disallowed_at_ws ws (c :: r)) eqn:D.
+    - cbn [lt_entity app name_prefix_ci] in H. rewrite ascii_lower_amp in H.
+      rewrite (Hy y (or_introl eq_refl)) in H. discriminate.
+    - cbn [app name_prefix_ci] in H. apply andb_true_iff in H. destruct H as [H1 H2].
+      destruct (IH r (fun z Hz => Hy z (or_intror Hz)) H2) as [I1 I2].
+      cbn [name_prefix_ci List.length skipn app]. rewrite H1, I1. split; [reflexivity|exact I2].
+  Qed.
+
+  Lemma head_transfer t (p : byte -> bool) : p x26 = false ->
+    match gfm_filter_ws ws t with d :: _ => p d | [] => false end = true ->
+    match t with d :: _ => p d | [] => false end = true.
+  Proof.
+    intros Hp. destruct t as [|d t]; [intro H; exact H|]. cbn [gfm_filter_ws].
+    destruct (disallowed_at_ws ws (d :: t)); cbn [lt_entity app]; [rewrite Hp; discriminate|].
+    intro H; exact H.
+  Qed.
+
+  Lemma tag_end_transfer t : tag_end ws (gfm_filter_ws ws t) = true -> tag_end ws t = true.
+  Proof.
+    destruct t as [|c t]; [intro H; exact H|]. cbn [gfm_filter_ws].
+    destruct (disallowed_at_ws ws (c :: t)) eqn:D; cbn [lt_entity app tag_end].
+    - rewrite ws_amp. replace (beqb x26 x3e) with false by reflexivity.
+      replace (beqb x26 x2f) with false by reflexivity. discriminate.
+    - intro H. apply orb_true_iff in H. destruct H as [H|H]; [rewrite H; reflexivity|].
+      apply andb_true_iff in H. destruct H as [H1 H2]. rewrite H1.
+      rewrite (head_transfer t (fun d => beqb d x3e) eq_refl H2). apply orb_true_r.
+  Qed.
+
+  Lemma name_then_end_transfer r : name_then_end ws (gfm_filter_ws ws r) = true -> name_then_end ws r = true.
+  Proof.
+    unfold name_then_end. intro H. apply existsb_exists in H. destruct H as [n [Hin H]].
+    apply existsb_exists. exists n. split; [exact Hin|].
+    apply andb_true_iff in H. destruct H as [H1 H2].
+    destruct (name_facts n Hin) as [_ [Hamp _]].
+    destruct (prefix_transfer n r Hamp H1) as [P1 P2]. rewrite P1. cbn [andb].
+    apply tag_end_transfer. rewrite <- P2. exact H2.
+  Qed.
+
+  Lemma name_then_end_amp z : name_then_end ws (x26 :: z) = false.
+  Proof.
+    destruct (name_then_end ws (x26 :: z)) eqn:E; [|reflexivity]. exfalso.
+    unfold name_then_end in E. apply existsb_exists in E. destruct E as [n [Hin H]].
+    apply andb_true_iff in H. destruct H as [H _].
+    destruct (name_facts n Hin) as [H3 [Hamp _]].
+    destruct n as [|y n]; [cbn in H3; lia|].
+    cbn [name_prefix_ci] in H. rewrite ascii_lower_amp, (Hamp y (or_introl eq_refl)) in H. discriminate.
+  Qed.
+
+  Lemma dis_transfer r :
+    disallowed_at_ws ws (x3c :: gfm_filter_ws ws r) = true -> disallowed_at_ws ws (x3c :: r) = true.
+  Proof.
+    destruct r as [|c r]; [intro H; exact H|].
+    cbn [disallowed_at_ws]. replace (beqb x3c x3c) with true by reflexivity. cbn [andb].
+    destruct (disallowed_at_ws ws (c :: r)) eqn:D.
+    - cbn [gfm_filter_ws]. rewrite D. cbn [lt_entity app].
+      replace (beqb x26 x2f) with false by reflexivity. rewrite name_then_end_amp. discriminate.
+    - assert (G : gfm_filter_ws ws (c :: r) = c :: gfm_filter_ws ws r)
+        by (cbn [gfm_filter_ws]; rewrite D; reflexivity).
+      rewrite G. destruct (beqb c x2f).
+      + apply name_then_end_transfer.
+      + rewrite <- G. apply name_then_end_transfer.
+  Qed.
+
+  Lemma filter_clean_ws : forall s, any_disallowed_ws ws (gfm_filter_ws ws s) = false.
+  Proof.
+    induction s as [|c r IH]; [reflexivity|].
+    cbn [gfm_filter_ws]. destruct (disallowed_at_ws ws (c :: r)) eqn:D.
+    - cbn [lt_entity app any_disallowed_ws].
+      rewrite !dis_not_lt by reflexivity. cbn [orb]. exact IH.
+    - cbn [app any_disallowed_ws]. rewrite IH, orb_false_r.
+      destruct (beqb c x3c) eqn:C.
+      + apply beqb_eq in C. subst c.
+        destruct (disallowed_at_ws ws (x3c :: gfm_filter_ws ws r)) eqn:E; [|reflexivity].
+        apply dis_transfer in E. congruence.
+      + apply dis_not_lt. exact C.
+  Qed.
+
+  Lemma any_disallowed_skipn : forall o, any_disallowed_ws ws o = false ->
+    forall i, disallowed_at_ws ws (skipn i o) = false.
+  Proof.
+    induction o as [|b o IH]; intros H i.
+    - destruct i; reflexivity.
+    - cbn [any_disallowed_ws] in H. apply orb_false_iff in H. destruct H as [H1 H2].
+      destruct i as [|i]; [exact H1|]. cbn [skipn]. apply IH. exact H2.
+  Qed.
+
+  Lemma filter_clean_positions s i : disallowed_at_ws ws (skipn i (gfm_filter_ws ws s)) = false.
+  Proof. apply any_disallowed_skipn. apply filter_clean_ws. Qed.
+
+  (* idempotence: a second pass changes nothing *)
+  Lemma gfm_filter_id_when_clean : forall o, any_disallowed_ws ws o = false -> gfm_filter_ws ws o = o.
+  Proof.
+    induction o as [|b o IH]; intro H; [reflexivity|].
+    cbn [any_disallowed_ws] in H. apply orb_false_iff in H. destruct H as [H1 H2].
+    cbn [gfm_filter_ws]. rewrite H1. cbn [app]. f_equal. apply IH. exact H2.
+  Qed.
+
+  Lemma filter_idempotent s : gfm_filter_ws ws (gfm_filter_ws ws s) = gfm_filter_ws ws s.
+  Proof. apply gfm_filter_id_when_clean. apply filter_clean_ws. Qed.
+
+  (* the end-to-end relation: the filtered text is the original with some LT written as the entity *)
+  Lemma filter_lt_expansion : forall s, lt_expansion s (gfm_filter_ws ws s) = true.
+  Proof.
+    induction s as [|c r IH]; [reflexivity|].
+    cbn [gfm_filter_ws]. destruct (disallowed_at_ws ws (c :: r)) eqn:D.
+    - destruct (disallowed_lt ws _ D) as [r' E]. inversion E; subst c r'.
+      cbn [lt_entity app lt_expansion starts_with skipn].
+      rewrite IH. replace (beqb x3c x26) with false by reflexivity.
+      rewrite !beqb_refl. reflexivity.
+    - cbn [app lt_expansion]. rewrite beqb_refl, IH. reflexivity.
+  Qed.
+End Structural.
+
+Lemma gfm_ws_amp : gfm_ws x26 = false. Proof. reflexivity. Qed.
+Lemma narrow_ws_amp : narrow_ws x26 = false. Proof. reflexivity. Qed.
+
+(* under the GFM reading a tag DOES survive the code's filter: the known finding *)
+Lemma filter_clean_gfm_refuted : exists s o, tagfilter_block s = Ok o /\ any_disallowed o = true.
+Proof.
+  exists vtff_witness. eexists. split; [apply tagfilter_block_exact|]. vm_compute. reflexivity.
+Qed.
+
+(* ---------------------------------------------------------------- the two node renderers *)
+
+Lemma block_payload_total e u t lit : exists o, html_block_payload e u t lit = Ok o.
+Proof.
+  unfold html_block_payload. destruct e; [apply escape_total|].
+  destruct u; cbn [negb]; [|eauto]. destruct t; [apply tagfilter_block_total|eauto].
+Qed.
+
+Lemma inline_payload_exact lit :
+  html_inline_payload false true true lit = Ok (lt_escape_first_ws narrow_ws lit).
+Proof.
+  unfold html_inline_payload. cbn [negb]. rewrite tagfilter_exact. cbn [bind].
+  unfold lt_escape_first_ws. fold disallowed_at_narrow.
+  destruct (disallowed_at_narrow lit) eqn:D; [|reflexivity].
+  destruct (disallowed_lt _ _ D) as [r E]. subst lit. reflexivity.
+Qed.
+
+Lemma inline_payload_total e u t lit : exists o, html_inline_payload e u t lit = Ok o.
+Proof.
+  destruct e; [apply escape_total|]. destruct u; [|cbn; eauto].
+  destruct t; [rewrite inline_payload_exact; eauto|cbn; eauto].
+Qed.
+
+Lemma block_payload_exact lit :
+  html_block_payload false true true lit = Ok (gfm_filter_narrow lit) /\
+  html_block_payload false true false lit = Ok lit.
+Proof. split; [apply tagfilter_block_exact|reflexivity]. Qed.
+
+Lemma inline_payload_off lit : html_inline_payload false true false lit = Ok lit.
+Proof. reflexivity. Qed.
+
+Lemma payload_option_irrelevant e u lit : e || negb u = true ->
+  html_block_payload e u true lit = html_block_payload e u false lit /\
+  html_inline_payload e u true lit = html_inline_payload e u false lit.
+Proof. destruct e, u; cbn; try discriminate; intros _; split; reflexivity. Qed.
+
+Lemma block_lt_expansion s o : tagfilter_block s = Ok o -> lt_expansion s o = true.
+Proof.
+  intro H. rewrite tagfilter_block_exact in H. injection H as <-.
+  exact (filter_lt_expansion narrow_ws s).
+Qed.
+
+Lemma block_clean_partial s o : no_vt_ff s = true -> tagfilter_block s = Ok o -> any_disallowed o = false.
+Proof.
+  intros Hs H. rewrite (tagfilter_block_spec_partial s Hs) in H. injection H as <-.
+  exact (filter_clean_ws gfm_ws gfm_ws_amp s).
+Qed.
+
+Lemma inline_cascade lit :
+  html_inline_payload false true true lit = Ok (lt_escape_first_ws narrow_ws lit) /\
+  html_inline_payload false true false lit = Ok lit.
+Proof. split; [apply inline_payload_exact | apply inline_payload_off]. Qed.
